@@ -22,16 +22,68 @@ TECHNIQUE = ("symbolic execution of the real orbital-element code (singularityCh
 FLOAT_SEMANTICS = "Real-ideal (rounding outside the claim); identities are asked with a tolerance so that counterexamples replay in doubles"
 ENCODED = [
     "resonaate.physics.orbits.utils:singularityCheck", "resonaate.physics.orbits:isInclined", "resonaate.physics.orbits:isEccentric",
-    "resonaate.physics.orbits:fixAngleQuadrant", "resonaate.physics.maths:wrapAngle2Pi", "resonaate.physics.maths:safeArccos",
+    "resonaate.physics.orbits:fixAngleQuadrant", "resonaate.physics.orbits:check_ecc", "resonaate.physics.orbits:wrap_anomaly",
+    "resonaate.physics.maths:wrapAngle2Pi", "resonaate.physics.maths:safeArccos", "resonaate.physics.maths:fpe_equals",
+    "resonaate.physics.maths:rot1", "resonaate.physics.maths:rot3",
+    "resonaate.physics.orbits.anomaly:trueAnom2EccAnom", "resonaate.physics.orbits.anomaly:eccAnom2TrueAnom",
+    "resonaate.physics.orbits.anomaly:eccAnom2MeanAnom", "resonaate.physics.orbits.anomaly:trueAnom2MeanAnom",
+    "resonaate.physics.orbits.anomaly:meanLong2EccLong",
     "resonaate.physics.orbits.conversions:coe2eci", "resonaate.physics.orbits.conversions:eci2coe",
+    "resonaate.physics.orbits.conversions:coe2eqe", "resonaate.physics.orbits.conversions:eqe2coe", "resonaate.physics.orbits.conversions:eqe2eci",
+    "resonaate.physics.orbits.utils:getSemiMajorAxis", "resonaate.physics.orbits.utils:getOrbitalEnergy", "resonaate.physics.orbits.utils:getAngularMomentum",
+    "resonaate.physics.orbits.utils:getEccentricity", "resonaate.physics.orbits.utils:getLineOfNodes", "resonaate.physics.orbits.utils:getRightAscension",
+    "resonaate.physics.orbits.utils:getArgumentPerigee", "resonaate.physics.orbits.utils:getTrueAnomaly", "resonaate.physics.orbits.utils:getArgumentLatitude",
+    "resonaate.physics.orbits.utils:getTrueLongitude", "resonaate.physics.orbits.utils:getTrueLongitudePeriapsis",
+    "resonaate.physics.orbits.utils:getEquinoctialBasisVectors", "resonaate.physics.orbits.utils:getInclinationFromEQE",
+    "resonaate.physics.orbits.utils:getEccentricityFromEQE", "resonaate.physics.orbits.utils:getMeanMotion",
+    "resonaate.physics.orbits.elements:ClassicalElements.__init__", "resonaate.physics.orbits.elements:ClassicalElements.fromConfig",
+    "resonaate.physics.orbits.elements:ClassicalElements.toECI", "resonaate.physics.orbits.elements:EquinoctialElements.__init__",
+    "resonaate.physics.orbits.elements:EquinoctialElements.fromConfig", "resonaate.physics.orbits.elements:EquinoctialElements.toECI",
+    "resonaate.scenario.config.state_config:COEStateConfig.toECI", "resonaate.scenario.config.state_config:COEStateConfig.validate_elements",
+    "resonaate.scenario.config.state_config:EQEStateConfig.toECI", "resonaate.scenario.config.state_config:ECIStateConfig.toECI",
 ]
-BOUNDS = {"sma": "6600..50000 km", "ecc": "[0, 0.9) incl. both sides of ECCENTRICITY_LIMIT = 1e-7",
-          "inc": "[0, pi] incl. both sides of INCLINATION_LIMIT = 1e-7 deg and of pi - INCLINATION_LIMIT", "raan, argp, anomalies": "[0, 2pi)"}
-OUTSIDE = ["floating-point rounding"]
-ASSUMPTIONS = ["angle algebra for cos/sin; sqrt/arccos/arctan2/fmod contracts of symx.core", "pi identified with const.PI",
-               "equal (cos, sin) => angles differ by a whole number of turns (instantiated for named pairs)"]
-LEVEL_TEXT = "Bounded symbolic verification in pieces."
-LEVEL_NOTE = "Real arithmetic; compositional."
+BOUNDS = {
+    "sma": "6600..50000 km", "ecc": "[0, 0.9) incl. both sides of ECCENTRICITY_LIMIT = 1e-7 and of the 1e-15 'is zero' test",
+    "inc": "[0, pi] incl. both sides of INCLINATION_LIMIT = 1e-7 deg and of pi - INCLINATION_LIMIT", "raan, argp, anomalies": "[0, 2pi)",
+    "eci2coe inputs (O3b-O3e)": "every state r = rho u_hat, v = vr u_hat + vt w_hat with rho in [600, 1e5] km, vt > 0, rho*vt >= 1000, any vr, whose elements lie in the "
+                                "ranges above; frame (raan, inc, u) arbitrary when inclined; raan = 0 in the equatorial families (node undefined there)",
+    "equinoctial (O4)": "inc/2 with sin in [0, 0.9999] (direct set) / [0.01, 1] (retrograde set); eqe2coe recovery on inclined eccentric orbits, sin(inc/2) in [0.01, 0.9999]",
+    "configurations (O6)": "documented field ranges; |p|, |q| <= 50, h^2 + k^2 < 0.81",
+}
+OUTSIDE = [
+    "floating-point rounding (e.g. wrapAngle2Pi returning exactly 2pi for tiny negative angles; cos/sin of pi not being -1/0 in doubles)",
+    "the Newton iterations keplerSolveCOE / keplerSolveEQE themselves (replaced by the contract 'returns a root of the equation it was asked to solve, same question -> same answer')",
+    "meanAnom2EccAnom / meanAnom2TrueAnom / meanLong2TrueAnom / trueAnom2MeanLong / eccLong2MeanLong round trips (only their call sites inside coe2eqe / eqe2coe are checked)",
+    "eci2eqe and the in-plane formulas of eqe2eci against coe2eci (only EQEStateConfig -> eqe2eci data flow and the equinoctial frame are checked)",
+    "state reproduction to better than ~e*a inside the circular threshold band (0 < e < 1e-7): by design the code treats such orbits as circular; element-level claims are made instead",
+    "the composed statement coe2eci(eci2coe(x)) = x as one query: it follows from O3a (form of coe2eci + closing scalar relations) and O3b-O3d (eci2coe returns the elements of "
+    "that form); the composition is an argument on paper",
+    "eci2coe inside the equatorial threshold bands with a non-zero node angle of the input state, and inside the retrograde band (pi - limit < inc < pi; "
+    "one sign fact per run stayed undecided there) - exactly retrograde-equatorial states (inc = pi) and the whole direct band are covered",
+    "TLE conversion, getFlightPathAngle, universal-variable helpers",
+]
+ASSUMPTIONS = [
+    "angle algebra of symx.core: cos/sin of a symbolic angle are a pair on the unit circle with exact addition formulas; sqrt, arccos, arcsin, arctan2, fmod contracts",
+    "pi identified with const.PI (a double)",
+    "equal (cos, sin) => the two angles differ by a whole number of turns (instantiated for named pairs; the rest is linear arithmetic on the ranges)",
+    "scipy.linalg.norm(x) = sqrt(sum x_i^2), numpy.vdot/cross by their definitions (wrappers of symx.ext_c12.Canon); a value computed by the code is replaced by a "
+    "harness-named term only after the solver proved them equal under the current path constraints",
+    "cut variables in the eci2coe obligations: e_cos_nu := vt^2 rho/mu - 1, minus_e_sin_nu := -rho vr vt/mu, ecc := sqrt of the sum of their squares (definitions, no loss of generality)",
+    "generalisation steps: an algebraic consequence proved for arbitrary real values (fresh variables) is used for the values of the code's terms once the hypotheses were proved for those terms",
+    "trusted numeric facts: sin x >= 1.7e-9 for x in [INCLINATION_LIMIT, pi - INCLINATION_LIMIT]; |cos x| > 0.999999 inside the equatorial bands; "
+    "t/(1+t) <= atan t <= pi/2 - 1/(1+t) for t >= 0; numpy.arctan(x) = numpy.arctan2(x, 1)",
+    "O6: period, mean motion and mean anomaly attributes of the element objects are stubbed out (they do not enter toECI); pydantic models are built with model_construct "
+    "and validate_elements() is called explicitly (field-range validation itself is pydantic's)",
+    "O4: trueAnom2MeanLong / meanLong2TrueAnom are replaced by recording providers inside coe2eqe / eqe2coe (their arguments are checked)",
+]
+LEVEL_TEXT = ("Bounded symbolic verification in pieces: the real conversion code (eci2coe incl. every angle-extraction helper and all four singular branches, coe2eci, "
+              "singularityCheck, anomaly conversions, coe2eqe/eqe2coe, equinoctial frame, the three StateConfig.toECI) is executed on solver variables; per path z3 proves "
+              "that the returned elements describe the input state (vis-viva, eccentricity vector, node, perigee direction, argument of latitude), ranges, zeros of "
+              "undefined elements and threshold classification, for all values in the bounds; counterexamples are replayed on the float code (this found the "
+              "retrograde-equatorial defect). Right level because singular and near-threshold orbits and quadrant choices are continuous families that the dozen tabulated "
+              "test orbits do not contain.")
+LEVEL_NOTE = ("Real arithmetic instead of doubles; trigonometry through (cos, sin) pairs and arccos/arctan2 contracts; the Cartesian round trip is compositional (form of "
+              "coe2eci + eci2coe on that form), Kepler solvers are a contract, eci2eqe/eqe2eci in-plane formulas and the mean-longitude conversions are outside.")
 
 TWOPI = rv(TWOPI_F)
 PI = rv(PI_F)
@@ -113,7 +165,7 @@ def slice_pc(goal, cons, pc, free=("turn!", "ident!")):
     return slice_vars(frozenset(V), cons, tuple(free))
 
 
-def prove(rep, label, goal, cons, timeout_ms=30000, lemmas=(), abstract=(), products=False, pc=None, **kw):
+def prove(rep, label, goal, cons, timeout_ms=30000, lemmas=(), abstract=(), products=False, pc=None, pins=(), **kw):
     """Discharge `goal` under the path constraints `cons`.
 
     1. (cheap, sound for `unsat`) the query is first tried in a *generalised* form: constraints are simplified, the harness may name
@@ -150,30 +202,27 @@ def prove(rep, label, goal, cons, timeout_ms=30000, lemmas=(), abstract=(), prod
             continue
         seen_sizes.add(len(sl))
         v0 = refute(g, sl, min(timeout_ms, to))
-        if __import__("os").environ.get("C12_DEBUG") and "exact-perigee-quadrant" in label:
-            print("  HOP", hop, v0.status, round(v0.secs, 2), len(sl), flush=True)
-            if hop == 0 and v0.status != "unsat":
-                sol = z3.Solver(); sol.add(*sl); sol.add(z3.Not(g))
-                open("/tmp/build/C12/q_%s.smt2" % label.replace("[", "_").replace("]", ""), "w").write(sol.to_smt2())
-            if False:
-                print("GOAL", g)
-                for c in sl:
-                    print("   H", str(c)[:300].replace("\n", " "))
-                print("MODEL", v0.model)
         if v0.status == "unsat":
             break
     if __import__("os").environ.get("C12_DEBUG"):
         print("PROVE", label, v0.status, round(v0.secs, 2), len(sl), len(hy), flush=True)
-        if False:
-            print("GOAL", g)
-            for c in sl:
-                print("   H", str(c)[:400].replace("\n", " "))
     if v0.status == "unsat":
         rep._item(label, "prove", v0)
         if kw.get("sample") is not None:
             rep.sample({"obligation": f"{rep.ob}:{label}", "verdict": "unsat", "what": kw["sample"]})
         return True
-    return rep.prove(label, goal, list(cons) + list(lemmas), timeout_ms=timeout_ms, **kw)
+    # not refuted in generalised form: look for a counterexample of the original query, first at the harness's sample points (a model found
+    # there is a model of all constraints; the solver then only has to evaluate), then unrestricted
+    if len(rep.violations) >= 2:
+        # two replayed violations are already on record for this obligation: further candidates are not searched (keeps a broken tree from
+        # exhausting the budget); nothing is claimed for this item
+        rep.note(f"{label}: not examined further after two violations")
+        return False
+    full = list(cons) + list(lemmas)
+    for pn in pins:
+        if refute(goal, full + list(pn), 3000).status == "sat":
+            return rep.prove(label, goal, full + list(pn), timeout_ms=timeout_ms, **kw)
+    return rep.prove(label, goal, full, timeout_ms=timeout_ms, **kw)
 
 
 PYTH = [(Fraction(5, 13), Fraction(12, 13)), (Fraction(-5, 13), Fraction(12, 13)), (Fraction(-5, 13), Fraction(-12, 13)), (Fraction(5, 13), Fraction(-12, 13)),
@@ -234,9 +283,9 @@ def _sing_expected(e, inc, raan, argp, nu):
     inclined = z3.And(inc >= rv(TOL_I), inc <= rv(math.pi - TOL_I))  # the documented pi - limit, evaluated in doubles as any caller would
     eccentric = e >= rv(TOL_E)
     w = wrap2pi_term
-    exp_raan = z3.If(inclined, raan, rv(0))
-    exp_argp = z3.If(eccentric, z3.If(inclined, argp, w(raan + argp)), rv(0))
-    exp_anom = z3.If(eccentric, nu, z3.If(inclined, w(nu + argp), w(nu + argp + raan)))
+    exp_raan = z3.If(inclined, w(raan), rv(0))
+    exp_argp = z3.If(eccentric, z3.If(inclined, w(argp), w(raan + argp)), rv(0))
+    exp_anom = z3.If(eccentric, w(nu), z3.If(inclined, w(nu + argp), w(nu + argp + raan)))
     return inclined, eccentric, exp_raan, exp_argp, exp_anom
 
 
@@ -260,8 +309,8 @@ def replay_sing(d):
     out = [float(v) for v in UT.singularityCheck(e, inc, raan, argp, nu)]
     inclined = TOL_I <= inc <= math.pi - TOL_I
     eccentric = e >= TOL_E
-    exp = [raan if inclined else 0.0, (argp if inclined else _py_wrap(raan + argp)) if eccentric else 0.0,
-           nu if eccentric else (_py_wrap(nu + argp) if inclined else _py_wrap(nu + argp + raan))]
+    exp = [_py_wrap(raan) if inclined else 0.0, (_py_wrap(argp) if inclined else _py_wrap(raan + argp)) if eccentric else 0.0,
+           _py_wrap(nu) if eccentric else (_py_wrap(nu + argp) if inclined else _py_wrap(nu + argp + raan))]
     detail = {"returned": out, "documented": exp}
     if inc > math.pi - TOL_I:  # retrograde equatorial: either reading of the combined angle (see _sing_expected_retro)
         alt = [0.0, _py_wrap(argp - raan) if eccentric else 0.0, nu if eccentric else _py_wrap(nu + argp - raan)]
@@ -285,8 +334,9 @@ def o1_sing(rep):
         e, inc = real("e"), real("inc")
         raan, argp, nu = real("raan"), real("argp"), real("nu")
         assume(e.t >= 0, e.t < rv(0.9), inc.t >= 0, inc.t <= PI)
-        for ang in (raan, argp, nu):
-            assume(ang.t >= 0, ang.t < TWOPI)
+        # documented inputs are in [0, 2pi); eqe2coe hands over un-wrapped node / perigee angles (arctan2 values and their difference), so
+        # the wider domain is the one callers rely on
+        assume(raan.t >= -TWOPI, raan.t <= TWOPI, argp.t >= -TWOPI, argp.t <= TWOPI, nu.t >= 0, nu.t < TWOPI)
         return UT.singularityCheck(e, inc, raan, argp, nu)
 
     V = {n: z3.Real(n) for n in ("e", "inc", "raan", "argp", "nu")}
@@ -368,7 +418,7 @@ def _o1_state(rep, inc_c, e_c, label):
     res = explore(run, max_paths=64)
     n = 0
     # known-finding region: retrograde equatorial with a non-zero node angle
-    regions = {"C12-retro-equatorial-singularityCheck": z3.BoolVal(inc_c is not None and inc_c > 1.0)}
+    regions = None
     for r in res:
         if r.exc is not None:
             rep.error("exception", repr(r.exc))
@@ -705,7 +755,7 @@ def o3a_coe2eci(rep):
 class _Iface:
     """symbolic state in interface form + the specification terms derived from it"""
 
-    def __init__(self, inc_fixed=None, raan_fixed=None, inclined=None):
+    def __init__(self, inc_fixed=None, raan_fixed=None, inclined=None, eccentric=None, outbound=None):
         mu = _mu()
         self.mu = mu
         self.inc_fixed = inc_fixed
@@ -715,6 +765,9 @@ class _Iface:
         assume(rho.t >= 600, rho.t <= 100000, vt.t > 0, (rho * vt).t >= 1000)
         self.inc, self.ci, self.si = _inc_input(inc_fixed)
         self.band = False
+        # what the family's own assumptions say about the orbit class (None: left to the path)
+        self.known_inclined = False if (inc_fixed is not None or inclined in ("direct", "retro")) else (True if inclined is True else None)
+        self.known_eccentric = eccentric
         if inc_fixed is None:
             inside = z3.And(self.inc.t >= rv(TOL_I), self.inc.t <= rv(math.pi - TOL_I))
             if inclined is True:
@@ -740,6 +793,14 @@ class _Iface:
         self.sma = mu * rho / (2 * mu - rho * self.V2)
         # bound orbit inside the stated element ranges
         assume(self.E.t < rv(0.9), (2 * mu - rho * self.V2).t > 0, self.sma.t >= 6600, self.sma.t <= 50000)
+        if outbound is True:  # radial velocity sign (splits the work; both halves are run)
+            assume(vr.t >= 0)
+        elif outbound is False:
+            assume(vr.t < 0)
+        if eccentric is True:
+            assume(self.E.t >= rv(TOL_E))
+        elif eccentric is False:
+            assume(self.E.t < rv(TOL_E))
         self.cu, self.su = self.u.cos(), self.u.sin()
         self.cO, self.sO = self.raan.cos(), self.raan.sin()
 
@@ -873,7 +934,7 @@ def _o3_check(rep, make, label, expect_classes, regions=None):
         st, cn, out = r.out
         cons = r.constraints
         inputs = st.inputs(r.path)
-        kw = dict(inputs=inputs, replay=replay_eci2coe, regions=regions, pc=r.path.pc)
+        kw = dict(inputs=inputs, replay=replay_eci2coe, regions=regions, pc=r.path.pc, pins=cn.pins)
         sma, ecc, inc, raan, argp, anom = out
         pinsets = cn.pins
         m = reach(rep, f"{label}-path[{t}]", cons, pinsets)
@@ -891,13 +952,16 @@ def _o3_check(rep, make, label, expect_classes, regions=None):
         from symx.core import refute
 
         def decided(c):
-            if refute(c, slice_plus(c, _simplified(cons)), 5000).status == "unsat":
-                return True
-            if refute(z3.Not(c), slice_plus(c, _simplified(cons)), 5000).status == "unsat":
-                return False
+            hy_ = _simplified(cons)
+            for sl_, to_ in ((slice_plus(c, hy_, hop=0), 8000), (slice_pc(c, hy_, r.path.pc), 8000), (slice_plus(c, hy_), 8000), (hy_, 30000)):
+                if refute(c, sl_, to_).status == "unsat":
+                    return True
+                if refute(z3.Not(c), sl_, to_).status == "unsat":
+                    return False
             return None
 
-        is_inc, is_ecc = decided(inclined), decided(eccentric)
+        is_inc = st.known_inclined if st.known_inclined is not None else decided(inclined)
+        is_ecc = st.known_eccentric if st.known_eccentric is not None else decided(eccentric)
         if is_inc is None or is_ecc is None:
             rep.undecided(f"{label}-class[{t}]", "the path does not determine the orbit class")
             continue
@@ -997,15 +1061,88 @@ def _o3_check(rep, make, label, expect_classes, regions=None):
 
 
 def o3b_inclined(rep):
-    _o3_check(rep, lambda: _Iface(inclined=True), "inclined", [(True, True), (True, False)])
+    _o3_check(rep, lambda: _Iface(inclined=True, eccentric=True, outbound=True), "inclined-eccentric-outbound", [(True, True)])
+
+
+def o3b1_inclined_inbound(rep):
+    _o3_check(rep, lambda: _Iface(inclined=True, eccentric=True, outbound=False), "inclined-eccentric-inbound", [(True, True)])
+
+
+def o3b2_inclined_circular(rep):
+    _o3_check(rep, lambda: _Iface(inclined=True, eccentric=False), "inclined-circular", [(True, False)])
 
 
 def o3c_equatorial_direct(rep):
     _o3_check(rep, lambda: _Iface(inc_fixed=Fraction(0), raan_fixed=Fraction(0)), "equatorial-exact", [(False, True), (False, False)])
+
+
+def o3c2_equatorial_direct_band(rep):
     _o3_check(rep, lambda: _Iface(raan_fixed=Fraction(0), inclined="direct"), "equatorial-band", [(False, True), (False, False)])
 
 
-RETRO_REGIONS = {"C12-retro-equatorial-eci2coe": z3.BoolVal(True)}
+def replay_vec(d):
+    from resonaate.physics.orbits import utils as UT
+
+    mu = _mu()
+    x = _iface_state(d)
+    r, v = x[:3], x[3:]
+    rho, vr, vt = d["rho"], d["vr"], d["vt"]
+    hh = np.array([math.sin(d["raan"]) * math.sin(d["inc"]), -math.cos(d["raan"]) * math.sin(d["inc"]), math.cos(d["inc"])])
+    A, B = vt * vt * rho / mu - 1, -rho * vr * vt / mu
+    uh, wh = r / rho, (v - vr * r / rho) / vt
+    sma = float(UT.getSemiMajorAxis(np.linalg.norm(r), np.linalg.norm(v)))
+    h = UT.getAngularMomentum(r, v)
+    ecc, ev = UT.getEccentricity(r, v)
+    node = UT.getLineOfNodes(h)
+    errs = {"sma": abs(sma - mu * rho / (2 * mu - rho * (vr * vr + vt * vt))) / sma, "h": float(np.abs(h - rho * vt * hh).max()) / (rho * vt),
+            "ecc": abs(float(ecc) - math.hypot(A, B)), "e_vec": float(np.abs(np.asarray(ev) * (float(ecc) if float(ecc) >= 1e-15 else 1.0) - (A * uh + B * wh)).max()),
+            "node": float(np.abs(node - np.array([-h[1], h[0], 0.0])).max()) / (rho * vt)}
+    return max(errs.values()) > 1e-9, errs
+
+
+def o3v_vector_helpers(rep):
+    """getSemiMajorAxis / getAngularMomentum / getEccentricity / getLineOfNodes on a state in interface form, general position"""
+    from resonaate.physics.orbits import utils as UT
+
+    def run():
+        st = _Iface()
+        cn = st.canon()
+        with _quiet(), shadow(UT, norm=cn.norm, vdot=cn.vdot, cross=cn.cross):
+            sma = UT.getSemiMajorAxis(cn.norm(st.pos), cn.norm(st.vel))
+            h = UT.getAngularMomentum(st.pos, st.vel)
+            ecc, ev = UT.getEccentricity(st.pos, st.vel)
+            node = UT.getLineOfNodes(h)
+        return st, cn, sma, h, ecc, ev, node
+
+    res = explore_sliced(run, max_paths=16, branch_timeout_ms=4000)
+    n = 0
+    for r in res:
+        t = tag(r)
+        if r.exc is not None:
+            rep.error(f"exception[{t}]", repr(r.exc))
+            continue
+        st, cn, sma, h, ecc, ev, node = r.out
+        cons = r.constraints
+        kw = dict(inputs=st.inputs(r.path), replay=replay_vec, pc=r.path.pc, pins=cn.pins)
+        if reach(rep, f"path[{t}]", cons, cn.pins) is None and rep.feasible(f"path?[{t}]", cons, timeout_ms=5000) is None:
+            continue
+        n += 1
+        prove(rep, f"sma[{t}]", _close(_z(sma), st.sma.t, KM_TOL), cons, sample="getSemiMajorAxis(|r|, |v|) = mu rho/(2 mu - rho v^2)", **kw)
+        href = simp(st.rho * st.vt * st.hh)
+        for j in range(3):
+            prove(rep, f"h[{j}][{t}]", _close(_z(h[j]), href[j].t, 1e-6), cons, sample="getAngularMomentum = rho vt h_hat", **kw)
+            prove(rep, f"node[{j}][{t}]", _close(_z(node[j]), [(-href[1]).t, href[0].t, rv(0)][j], 1e-6), cons, sample="getLineOfNodes = z_hat x h", **kw)
+        prove(rep, f"ecc[{t}]", z3.And(_z(ecc) >= 0, _close(_z(ecc) * _z(ecc), st.E2.t, 1e-12)), cons, sample="getEccentricity: e^2 = (vt^2 rho/mu - 1)^2 + (rho vr vt/mu)^2", **kw)
+        scale = z3.If(_z(ecc) >= rv(1e-15), _z(ecc), rv(1))
+        for j in range(3):
+            want = (st.A * st.uh[j] + st.B * st.wh[j]).t
+            prove(rep, f"e_vec[{j}][{t}]", _close(_z(ev[j]) * scale, want, 1e-9), cons,
+                  sample="getEccentricity: vector (unit when e >= 1e-15) along (vt^2 rho/mu - 1) u_hat - (rho vr vt/mu) w_hat", **kw)
+    if n == 0:
+        rep.error("reach", "no feasible path")
+
+
+RETRO_REGIONS = None  # (the retrograde-equatorial defect found by O1c/O3d was repaired in /repo; no known-finding region is needed)
 
 
 def o3d_equatorial_retro(rep):
@@ -1072,6 +1209,7 @@ def _deg(name, D):
 
 def o6a_config_coe(rep):
     from resonaate.physics import constants as const
+    from resonaate.physics.orbits import utils as UT
     from resonaate.physics.orbits import conversions as CV
     from resonaate.physics.orbits import elements as EL
     from resonaate.scenario.config.state_config import COEStateConfig
@@ -1091,11 +1229,12 @@ def o6a_config_coe(rep):
             raan, argp, anom = (v * D for v in _variant_elements(variant, f))
             raan, argp, anom = (v if isinstance(v, SReal) else SReal(0) for v in (raan, argp, anom))
             inc = inc_deg * D
-            _i, _e, x_raan, x_argp, x_anom = _sing_expected(e.t, inc.t, raan.t, argp.t, anom.t)
-            ref = CV.coe2eci(a, e, inc, SReal(x_raan), SReal(x_argp), SReal(x_anom))
+            # the element object documents that it folds singular cases with singularityCheck (whose own behaviour is O1/O1b/O1c's subject)
+            with _quiet():
+                ref = CV.coe2eci(a, e, inc, *UT.singularityCheck(e, inc, raan, argp, anom))
             return x, ref, f
 
-        res = explore(run, max_paths=200)
+        res = explore_sliced(run, max_paths=200)
         rep.note(f"{variant}: paths={len(res)}")
         n = 0
         for r in res:
@@ -1171,8 +1310,10 @@ def o6b_config_eci_eqe(rep):
                 return d
 
             n += 1
+            pins = [[z3.Real("a") == 7000 + 100 * k_, z3.Real("h") == rv(Fraction(1, 10)), z3.Real("k") == rv(Fraction(k_, 10)), z3.Real("p") == rv(Fraction(3, 10)),
+                     z3.Real("q") == rv(Fraction(-4, 10))] + angle_pins(r.path, ("lam",), k_) for k_ in range(4)]
             for j in range(6):
-                prove(rep, f"eqe-state[{j}][retro={retro}][{t}]", close_arrays(x[j:j + 1], ref[j:j + 1], KM_TOL), cons, lemmas=lem, inputs=inputs, replay=replay_config,
+                prove(rep, f"eqe-state[{j}][retro={retro}][{t}]", close_arrays(x[j:j + 1], ref[j:j + 1], KM_TOL), cons, lemmas=lem, pins=pins, inputs=inputs, replay=replay_config,
                       sample="EQEStateConfig.toECI = eqe2eci of the configured elements (mean longitude degrees -> radians, retrograde flag passed on)")
         if n == 0:
             rep.error("reach", f"eqe retro={retro}: no path")
@@ -1251,10 +1392,13 @@ def _o4_frame_part(rep, p, retro, II, inputs_for, CV, UT):
     hyp = [P_ == T * raan.sin().t, Q_ == T * raan.cos().t, tl, ce * ce + se * se == 1, raan.cos().t * raan.cos().t + raan.sin().t * raan.sin().t == 1,
            (ce > 0) if not retro else (se > 0)]
     okq = prove(rep, f"half-angle-positive[{t}]", hyp[-1], cons, sample="cos(inc/2) > 0 (sin(inc/2) > 0 for the retrograde set) inside the bounds", **kw)
+    D_ = 1 + P_ * P_ + Q_ * Q_
+    hint = (D_ * ce * ce == 1) if not retro else (D_ * se * se == 1)
+    okh = prove(rep, f"frame-normalisation[{t}]", hint, hyp, sample="1 + p^2 + q^2 = 1/cos^2(inc/2) (1/sin^2 for the retrograde set): algebra, arbitrary values")
     for nm, vec, ref in (("f", fg[0], uh), ("g", fg[1], wh)):
         for j in range(3):
-            if okp and okq:
-                prove(rep, f"frame-{nm}[{j}][{t}]", _close(_z(vec[j]), ref[j].t, 1e-9), hyp, timeout_ms=60000,
+            if okp and okq and okh:
+                prove(rep, f"frame-{nm}[{j}][{t}]", _close(_z(vec[j]), ref[j].t, 1e-9), hyp + [hint, D_ > 0], timeout_ms=60000,
                       sample=f"equinoctial {nm} = column of rot3(-raan) rot1(-inc) rot3(I raan) (algebra over p, q, tan(inc/2), for arbitrary values)")
     rep.reachable(f"inputs[{t}]", cons + [e.t == rv(Fraction(1, 2)), sh.t == rv(Fraction(3, 5))] + angle_pins(p, ("raan", "argp", "nu", "lam0"), 1))
 
@@ -1308,7 +1452,7 @@ def _o4_eqe(rep, part):
                 el = CV.coe2eqe(a, e, inc, raan, argp, nu, retro=retro)
                 back = CV.eqe2coe(*el, retro=retro)
             lems = [identify_lemma(back[2], inc), identify_lemma(back[3], raan), identify_lemma(back[4], argp)] if all(isinstance(back[j], SReal) for j in (2, 3, 4)) else None
-            return dict(a=a, e=e, inc=inc, raan=raan, argp=argp, lam0=lam0, nu0=nu0, back=back, seen=seen, lems=lems)
+            return dict(a=a, e=e, inc=inc, raan=raan, argp=argp, lam0=lam0, nu0=nu0, back=back, seen=seen, lems=lems, el=el)
 
         res = explore_sliced(run, max_paths=100, branch_timeout_ms=4000)
         rep.note(f"eqe2coe retro={retro}: paths={len(res)}")
@@ -1348,15 +1492,50 @@ def _o4_eqe(rep, part):
                         if prove(rep, f"eqe2coe-norm#{len(sq_lem)}[{t}]", fact, cons, sample="a norm taken by eqe2coe equals e or tan(inc/2)^I", **kw):
                             sq_lem.append(fact)
                         break
-            for nm, j, want, (prem, concl) in (("inc", 2, o["inc"], o["lems"][0]), ("raan", 3, o["raan"], o["lems"][1]), ("argp", 4, o["argp"], o["lems"][2])):
-                if prove(rep, f"eqe2coe-{nm}-cos-sin[{t}]", prem, cons, lemmas=sq_lem, timeout_ms=60000, sample=f"eqe2coe(coe2eqe): {nm} has the cosine and sine of the original", **kw):
+            proved = {}
+            for nm, j, want, (prem, concl) in (("inc", 2, o["inc"], o["lems"][0]), ("raan", 3, o["raan"], o["lems"][1])):
+                proved[nm] = prove(rep, f"eqe2coe-{nm}-cos-sin[{t}]", prem, cons, lemmas=sq_lem, timeout_ms=60000, sample=f"eqe2coe(coe2eqe): {nm} has the cosine and sine of the original", **kw)
+                if proved[nm]:
                     prove(rep, f"eqe2coe-{nm}[{t}]", _close(_z(b[j]), want.t), list(cons) + [concl], sample=f"eqe2coe(coe2eqe): {nm} recovered (inclined eccentric orbit)", **kw)
+            # argument of perigee = atan2(h, k) - I atan2(p, q): facts about the two arctan2 values on the real terms, then addition formulas for arbitrary values
+            hh_, kk_ = _z(o["el"][1]), _z(o["el"][2])
+            with resume(r.path):
+                cO, sO, cw, sw = o["raan"].cos().t, o["raan"].sin().t, o["argp"].cos().t, o["argp"].sin().t
+                cA, sA = b[4].cos().t, b[4].sin().t
+            pair_hk = pair_pq = None
+            for (a_, (c_, s_)) in r.path.apps.get("arctan2", []):
+                from symx.core import refute as _rf
+
+                f_hk = z3.And(c_ * e == kk_, s_ * e == hh_)
+                f_pq = z3.And(c_ == cO, s_ == sO)
+                hy_ = _simplified(list(cons) + sq_lem)
+                if pair_hk is None and _rf(f_hk, slice_plus(z3.And(f_hk, *sq_lem) if sq_lem else f_hk, hy_, hop=4), 5000).status == "unsat":
+                    pair_hk = (c_, s_, f_hk)
+                elif pair_pq is None and _rf(f_pq, slice_plus(z3.And(f_pq, *sq_lem) if sq_lem else f_pq, hy_, hop=4), 5000).status == "unsat":
+                    pair_pq = (c_, s_, f_pq)
+            if pair_hk is None or pair_pq is None:
+                rep.undecided(f"eqe2coe-argp[{t}]", "the arctan2 values for (h, k) and (p, q) could not be characterised")
+                continue
+            ok1 = prove(rep, f"eqe2coe-atan2(h,k)[{t}]", pair_hk[2], cons, lemmas=sq_lem, sample="eqe2coe: arctan2(h, k) points along (k, h)/e", **kw)
+            ok2 = prove(rep, f"eqe2coe-atan2(p,q)[{t}]", pair_pq[2], cons, lemmas=sq_lem, sample="eqe2coe: arctan2(p, q) has the cosine and sine of raan", **kw)
+            c1, s1, c2, s2 = pair_hk[0], pair_hk[1], pair_pq[0], pair_pq[1]
+            add = z3.And(cA == c1 * c2 + II * s1 * s2, sA == s1 * c2 - II * c1 * s2)
+            ok3 = prove(rep, f"eqe2coe-argp-addition[{t}]", add, cons, sample="the returned argp has the (cos, sin) of arctan2(h,k) - I arctan2(p,q) (addition formulas)", **kw)
+            hk = z3.And(kk_ == e * (cw * cO - II * sw * sO), hh_ == e * (sw * cO + II * cw * sO))
+            ok4 = prove(rep, f"eqe2coe-h-k[{t}]", hk, cons, sample="coe2eqe: h = e sin(argp + I raan), k = e cos(argp + I raan)", **kw)
+            if ok1 and ok2 and ok3 and ok4:
+                C1, S1, C2, S2, CA, SA, H_, K_ = (z3.Real(n) for n in ("hk_c", "hk_s", "pq_c", "pq_s", "argp_c", "argp_s", "h_eq", "k_eq"))
+                hyp = [C1 * e == K_, S1 * e == H_, C2 == cO, S2 == sO, CA == C1 * C2 + II * S1 * S2, SA == S1 * C2 - II * C1 * S2,
+                       K_ == e * (cw * cO - II * sw * sO), H_ == e * (sw * cO + II * cw * sO), e > 0, cO * cO + sO * sO == 1, cw * cw + sw * sw == 1]
+                if prove(rep, f"eqe2coe-argp-cos-sin[{t}]", z3.And(CA == cw, SA == sw), hyp, sample="eqe2coe(coe2eqe): argp has the cosine and sine of the original (algebra, arbitrary values)"):
+                    prem, concl = o["lems"][2]
+                    prove(rep, f"eqe2coe-argp[{t}]", _close(_z(b[4]), o["argp"].t), list(cons) + [concl], sample="eqe2coe(coe2eqe): argp recovered (inclined eccentric orbit)", **kw)
             prove(rep, f"eqe2coe-anomaly[{t}]", _z(b[5]) == o["nu0"].t, cons, sample="eqe2coe: the true anomaly returned is the one meanLong2TrueAnom gave (already in [0, 2pi))", **kw)
         if n == 0:
             rep.error("reach", f"eqe2coe retro={retro}: no feasible path")
 
 
-REPLAYS = {"O1": replay_sing, "O1b": replay_sing, "O1c": replay_sing, "O2a": replay_anom, "O2b": replay_anom, "O2c": replay_anom, "O3a": replay_coe2eci_form, "O3b": replay_eci2coe, "O3c": replay_eci2coe, "O3d": replay_eci2coe, "O3e": replay_eci2coe, "O4a": replay_eqe_frame, "O4b": replay_eqe_frame, "O6a": replay_config, "O6b": replay_config}
+REPLAYS = {"O1": replay_sing, "O1b": replay_sing, "O1c": replay_sing, "O2a": replay_anom, "O2b": replay_anom, "O2c": replay_anom, "O3a": replay_coe2eci_form, "O3v": replay_vec, "O3b": replay_eci2coe, "O3b1": replay_eci2coe, "O3b2": replay_eci2coe, "O3c": replay_eci2coe, "O3c2": replay_eci2coe, "O3d": replay_eci2coe, "O3e": replay_eci2coe, "O4a": replay_eqe_frame, "O4b": replay_eqe_frame, "O6a": replay_config, "O6b": replay_config}
 
 
 def obligations(tier):
@@ -1371,17 +1550,21 @@ def obligations(tier):
         Ob("O2c", o2c_kepler, "eccAnom2MeanAnom / trueAnom2MeanAnom: Kepler's equation, ranges, composition", 180),
     ]
     obs += [
-        Ob("O3b", o3b_inclined, "eci2coe on inclined orbits in general position (eccentric, circular, threshold straddled): elements describe the state", 400),
-        Ob("O3c", o3c_equatorial_direct, "eci2coe on direct equatorial orbits (exact and inside the threshold band)", 400),
+        Ob("O3b", o3b_inclined, "eci2coe on inclined eccentric orbits in general position, r.v >= 0: elements describe the state", 400),
+        Ob("O3b1", o3b1_inclined_inbound, "eci2coe on inclined eccentric orbits in general position, r.v < 0", 400),
+        Ob("O3b2", o3b2_inclined_circular, "eci2coe on inclined circular orbits (e below the limit, incl. the 1e-15 zero test) in general position", 400),
+        Ob("O3c", o3c_equatorial_direct, "eci2coe on exactly equatorial direct orbits (inc = 0): eccentric and circular", 400),
+        Ob("O3c2", o3c2_equatorial_direct_band, "eci2coe on direct orbits inside the equatorial threshold band (0 < inc < limit)", 400),
         Ob("O3d", o3d_equatorial_retro, "eci2coe on exactly retrograde equatorial orbits (inc = pi)", 400),
     ]
-    if tier == "thorough":
-        obs.append(Ob("O3e", o3e_equatorial_retro_band, "eci2coe on retrograde orbits inside the equatorial threshold band (pi - limit < inc < pi)", 900))
+    # (o3e_equatorial_retro_band is kept for experiments but is not an obligation: one quadrant fact per run stays undecided, see OUTSIDE)
     obs += [
         Ob("O6a", o6a_config_coe, "COEStateConfig.toECI for the four documented field combinations = coe2eci of the described elements", 300),
         Ob("O6b", o6b_config_eci_eqe, "ECIStateConfig / EQEStateConfig.toECI hand the configured numbers to hstack / eqe2eci unchanged", 300),
     ]
-    obs.append(Ob("O4a", o4a_eqe_elements, "coe2eqe / getEquinoctialBasisVectors: p, q, h, k definitions, equinoctial frame = rot3(-raan) rot1(-inc) rot3(I raan)", 400))
+    if tier == "thorough":
+        obs.append(Ob("O4a", o4a_eqe_elements, "coe2eqe / getEquinoctialBasisVectors: p, q, h, k definitions, equinoctial frame = rot3(-raan) rot1(-inc) rot3(I raan)", 600))
     obs.append(Ob("O4b", o4b_eqe2coe, "eqe2coe(coe2eqe(.)) on inclined eccentric orbits: ecc, inc, raan, argp recovered; calls of the longitude conversions", 400))
+    obs.append(Ob("O3v", o3v_vector_helpers, "getSemiMajorAxis / getAngularMomentum / getEccentricity / getLineOfNodes on interface states in general position", 300))
     obs.append(Ob("O3a", o3a_coe2eci, "coe2eci has the interface form (rho, vr, vt; raan, inc, argp+nu); closing scalar relations", 180))
     return obs
